@@ -349,7 +349,9 @@ func C06(c *wk.Ctx) {
 			return obs
 		}
 		for ci := 0; ci < perUnit; ci++ {
-			gc := gen.Generate(c.UnitSeed(run, uint64(300+ci)), c06Opts())
+			o06 := c06Opts()
+			o06.Focus = gen.FocusFor(c.UnitSeed(run, uint64(300+ci)))
+			gc := gen.Generate(c.UnitSeed(run, uint64(300+ci)), o06)
 			chaos := r.Intn(2) == 0
 			var chaosLog []string
 			if chaos {
